@@ -1,5 +1,6 @@
 import Autd3.Model.Fw
 import Autd3.Lemmas.SilGuardWitness
+import Autd3.Lemmas.SilSendWitness
 /-!
 # C08 — strict silencer mode can never be circumvented
 
@@ -27,11 +28,31 @@ Second layer (unbounded, all states / bytes / histories), about the executable f
   Still excluded, with a kernel-checked counterexample trace: F8b (transition-carrying BEGIN frame
   of a send that is then cut).  `f8c_repaired`: the former F8c trace now ends refused.
 
+Third layer (`Lemmas/SilSend*.lean`): the statement at the level the property is phrased — COMPLETE SENDS as the SDK
+produces them, through the real packer model (`Wire.packOp2`), accepted or refused (`sendLoopR`: the loop of
+`Sender::send`, which stops at the first error acknowledgement and keeps the device state it stopped in):
+
+* `strict_guard_holds_after_every_send_partial` — every history from power-on of (i) any datagram of `Hist.Legal`
+  (all 20 kinds; Modulation / FociSTM / GainSTM with any number of frames, with or without transition) sent completely
+  and accepted, (ii) ANY single datagram refused with `ERR_INVALID_SILENCER_SETTING` at its first frame, ends in a state
+  satisfying the property's statement on the read-back accessors.  Between the BEGIN and the END frame of a
+  transition-carrying send the invariant does NOT hold (belief ahead of request); it is re-established by END, which
+  a complete accepted send always reaches.
+* `strict_guard_holds_after_every_send_tuples_partial` — the larger vocabulary `Hist`: additionally every single-frame
+  datagram or TUPLE of two single-frame datagrams (configuration, Silencer, Clear, Gain, PhaseCorrection, the four
+  SwapSegment), accepted or refused in EITHER slot with ANY error code.
+* `rejected_send_changes_nothing_send_level`, `rejected_changes_nothing_second_slot` — what a refusal leaves.
+* **F8d** (`f8d_*`, kernel-checked, confirmed on the real emulator): the full statement is FALSE for tuples whose first
+  member is a transition-carrying multi-frame STM: the second member is packed into the BEGIN frame (a two-frame
+  GainSTM leaves 108 free bytes) and runs between BEGIN (belief := new segment) and END (request := new segment).
+  No send is cut.  (a) second member refused → the send stops after BEGIN, the belief stays ahead;
+  (b) second member `SwapSegment::Gain`, everything ACCEPTED → END requests S1 while the belief is back on S0.
+
 Deviation from the brief: the CPU's strict copy is *implied by* — not equivalent to — the strict bit
 of `ADDR_SILENCER_FLAG`: `clear` sets `silencer_strict_mode = true` but writes 0 to the flag register.
 -/
 namespace Autd3.C08
-open Autd3 Autd3.Fw Autd3.Gen Autd3.SilGuard
+open Autd3 Autd3.Fw Autd3.Gen Autd3.SilGuard Autd3.SilSend
 
 /-- `validate_silencer_settings` accepts exactly when strict mode is off or both sampling divisions
 respect the configured completion steps -/
@@ -209,6 +230,127 @@ theorem f8c_repaired :
        [142, 0, 0, 65535, 40, 0, 65535, 65535, 10, 80, 4, 1]] := by
   decide +kernel
 
+
+/-! ## the property at the level of complete sends -/
+
+/-
+Full statement wanted: for EVERY history from power-on of complete sends of datagrams and tuples the SDK can build,
+accepted or refused, the guard statement holds after every send.  It is FALSE on this tree (F8d below).  Proved:
+the histories `Hist1` — complete accepted sends of every legal datagram (all kinds, any number of frames, with or
+without transition) and any single datagram refused by the silencer guard at its first frame.  Every prefix of a
+history is a history, so the statement holds after every send.  Missing for the full statement: (1) tuples with a
+Modulation / FociSTM / GainSTM member (false in general: F8d; true when the other member does not run between BEGIN
+and END — not proved), (2) a multi-frame send refused at its END frame with `ERR_MISS_TRANSITION_TIME` (the request
+register is written before the deadline check — `inv_miss_transition_time` — but the send-level lemma is not proved),
+(3) first-frame refusals of Modulation / FociSTM / GainSTM with `ERR_INVALID_TRANSITION_MODE` (state unchanged by
+`Tuple2.write*_reject1`; not lifted), (4) clock ticks between sends (`inv_tick` at frame level).
+-/
+theorem strict_guard_holds_after_every_send_partial (numTr now : Nat) (hn : numTr ≤ 249) (p0 : State)
+    (hp0 : Fw.new numTr now = .ok p0) (t0 : Wire.Tx) (ht0 : Rt.TxOK t0) (s : State) (t : Wire.Tx)
+    (h : Hist1 p0 t0 s t) :
+    ∃ rs rm, Obs.reqStmSeg s = .ok rs ∧ Obs.reqModSeg s = .ok rm ∧
+      ((s.strict = true ∨ (Obs.silencerFixedUpdateRateMode s = false ∧ strictBit s = true)) →
+        ∀ i p, Obs.silencerCompletionSteps s = .ok (i, p) →
+          max i p ≤ Obs.stmDiv s rs ∧ i ≤ Obs.modDiv s rm) := by
+  obtain ⟨hc, hW, hF⟩ := new_good numTr now hn p0 hp0
+  exact (hist1_good h hc hW ht0 (hF t0)).2.1.guard_obs
+
+/-- the same for the larger vocabulary `Hist`: single-frame datagrams and TUPLES of two single-frame datagrams,
+accepted or refused in either slot with any error code; Modulation / FociSTM / GainSTM accepted (here the event
+carries the well-formedness of the device it is sent to, which `Hist1` proves and `Hist` does not track through
+refused tuples); any single datagram refused by the silencer guard at its first frame -/
+theorem strict_guard_holds_after_every_send_tuples_partial (numTr now : Nat) (p0 : State)
+    (hp0 : Fw.new numTr now = .ok p0) (t0 : Wire.Tx) (ht0 : Rt.TxOK t0) (s : State) (t : Wire.Tx)
+    (h : Hist p0 t0 s t) :
+    ∃ rs rm, Obs.reqStmSeg s = .ok rs ∧ Obs.reqModSeg s = .ok rm ∧
+      ((s.strict = true ∨ (Obs.silencerFixedUpdateRateMode s = false ∧ strictBit s = true)) →
+        ∀ i p, Obs.silencerCompletionSteps s = .ok (i, p) →
+          max i p ≤ Obs.stmDiv s rs ∧ i ≤ Obs.modDiv s rm) :=
+  (hist_core h (new_inv numTr now p0 hp0).core ht0).1.guard_obs
+
+/-- every history of `Hist1` is a history of `Hist`, and keeps — besides the invariant — well-formedness, the 622-byte
+buffer and a fresh message id (so the next legal datagram is accepted: `Hist.legal_datagram_accepted`) -/
+theorem send_history_invariant (numTr now : Nat) (hn : numTr ≤ 249) (p0 : State) (hp0 : Fw.new numTr now = .ok p0)
+    (t0 : Wire.Tx) (ht0 : Rt.TxOK t0) (s : State) (t : Wire.Tx) (h : Hist1 p0 t0 s t) :
+    Hist p0 t0 s t ∧ Core s ∧ Rt.WF s ∧ Rt.TxOK t ∧ Rt.Fresh s t := by
+  obtain ⟨hc, hW, hF⟩ := new_good numTr now hn p0 hp0
+  exact hist1_good h hc hW ht0 (hF t0)
+
+/-- one complete send of a single-frame datagram or of a tuple of two of them keeps the invariant from ANY state
+satisfying it, however the send ends (no hypothesis on well-formedness, message ids, legality of the datagrams) -/
+theorem small_send_keeps_core (A B : Wire.Dg) (hA : SmallOrNull A) (hB : SmallOrNull B) (s : State) (t t' : Wire.Tx)
+    (s' : State) (r : Option Nat) (ht : Rt.TxOK t) (hc : Core s) (h : SendsR A B s t t' s' r) : Core s' := by
+  obtain ⟨fuel, h⟩ := h
+  exact (sendLoopR_core_small fuel _ _ s t t' s' r (okOp_of A hA) (okOp_of B hB) ht hc h).1
+
+/-- an accepted complete send in the refusal-aware loop is a `Sends` / `Sends2` of C01–C03 -/
+theorem accepted_send_is_sends (A B : Wire.Dg) (s : State) (t t' : Wire.Tx) (s' : State)
+    (h : SendsR A B s t t' s' none) : Rt.Sends2 A B s t t' s' ∧ (B = .null → Rt.Sends A s t t' s') :=
+  ⟨sendsR_pair_accept h, fun e => by subst e; exact sendsR_single_accept h⟩
+
+/-- **rejected_send_changes_nothing_send_level**: a complete send of ANY single datagram whose first frame is refused
+with `ERR_INVALID_SILENCER_SETTING` — the send loop stops there — leaves the device equal to the one before the send
+in every field except `ack` (now the error code), `lastMsgId`, `rxData` (header bookkeeping of the one delivered
+frame) and the private write cursors `modCycle` / `gainStmMode` (read by no `Obs.*` accessor and no guard): every
+memory, register, swap chain, belief, CPU copy and the silencer configuration are unchanged -/
+theorem rejected_send_changes_nothing_send_level (dg : Wire.Dg) (s : State) (t t' : Wire.Tx) (s' : State)
+    (ht : Rt.TxOK t) (hF : Rt.Fresh s t)
+    (h : sendLoopR 1 (Wire.Op.ofDg dg) (Wire.Op.ofDg .null) s t = some (t', s', some Cpu.ERR_INVALID_SILENCER_SETTING)) :
+    s' = { s with ack := s'.ack, lastMsgId := s'.lastMsgId, rxData := s'.rxData,
+                  modCycle := s'.modCycle, gainStmMode := s'.gainStmMode } :=
+  (refused_first dg s t t' s' ht hF h).1
+
+/-- **the tuple case, refused operation in slot 2**: slot 1 has been applied.  "Changes nothing" means: nothing of
+the REFUSED member — `ecat_recv` returns exactly the state `s1` that the first slot's handler produced, with `ack` =
+the error code (and possibly the two private cursors touched).  `Sender::send` stops there, so this is the state
+after the refused send; if the first member is a transition-carrying multi-frame STM this state is the mid-send
+state of F8d (a). -/
+theorem rejected_changes_nothing_second_slot (s s' s1 s2 : State) (f : Array Nat) (a1 : Nat)
+    (hid : s.lastMsgId ≠ u8at f DrvLayout.Header_msg_id_off)
+    (hmsb : u8at f DrvLayout.Header_msg_id_off &&& 0x80 = 0)
+    (h1 : handlePayload (preState s f) (slot1 f) = .ok (s1, a1)) (ha1 : a1 &&& Cpu.ERR_BIT = 0)
+    (hs2 : u16at f DrvLayout.Header_slot_2_offset_off ≠ 0)
+    (hin : DrvLayout.Header_size + u16at f DrvLayout.Header_slot_2_offset_off ≤ f.size)
+    (h2 : handlePayload { s1 with ack := a1 } (slot2 f) = .ok (s2, Cpu.ERR_INVALID_SILENCER_SETTING))
+    (h : ecatRecv s f = .ok s') :
+    s' = { s1 with ack := Cpu.ERR_INVALID_SILENCER_SETTING, modCycle := s'.modCycle,
+                   gainStmMode := s'.gainStmMode } :=
+  recv_second_refused s s' s1 s2 f a1 hid hmsb h1 ha1 hs2 hin h2 h
+
+/-- **F8d (a) counterexample** (kernel-checked, the SDK's frames delivered to an 8-transducer device — see
+`trailFromNewN`; no send is cut): from `CPUEmulator::new`,
+FociSTM div 40 → S0 (ack 1); first frame of the tuple (GainSTM → S1 div 100 Immediate, Silencer(10, 200, strict)):
+GainSTM BEGIN in slot 1, Silencer in slot 2 → ack 142, belief S1, request S0; Silencer(10, 80, strict) → ack 3:
+request register 0 (division 40), belief 1 (division 100), steps 10/80, strict fixed-steps: 40 < 80 -/
+theorem f8d_counterexample_refused_tuple :
+    trailFromNewN 8 f8dRefusedTrace =
+      [[1, 0, 0, 40, 65535, 0, 65535, 65535, 10, 40, 0, 1],
+       [142, 0, 1, 40, 100, 0, 65535, 65535, 10, 40, 0, 1],
+       [3, 0, 1, 40, 100, 0, 65535, 65535, 10, 80, 4, 1]] := by
+  decide +kernel
+
+/-- **F8d (b) counterexample** (kernel-checked; every frame ACKNOWLEDGED): tuple (GainSTM → S1 div 100 Immediate,
+GainSwapSegment(S0)): frame 1 = BEGIN + swap (belief S1 → S0, request S0), frame 2 = END|UPDATE (request := S1, belief
+stays S0); Silencer(10, 200, strict) validated against S0 (division 0xFFFF) → ack 3: request register 1 with
+division 100, steps 10/200, strict fixed-steps: 100 < 200 -/
+theorem f8d_counterexample_accepted_tuple :
+    trailFromNewN 8 f8dAcceptedTrace =
+      [[1, 0, 0, 65535, 100, 0, 65535, 65535, 10, 40, 0, 1],
+       [2, 1, 0, 65535, 100, 0, 65535, 65535, 10, 40, 0, 1],
+       [3, 1, 0, 65535, 100, 0, 65535, 65535, 10, 200, 4, 1]] := by
+  decide +kernel
+
+/-
+F8d through the real packer and on the real emulator (op lines of the `fw_c08` stream, 249 transducers; model and
+implementation answer identically, the implementation oracle reports the violation):
+(a) `send clear` / `send foci 1 0 255:0 65535 40 21760 2 1` / `send pair gainstm 0 1 255:0 65535 100 2 2 | silsteps 10 200 1`
+    → `R=err:fw:142 N=1` / `send silsteps 10 80 1` → `R=ok`: strict 10/80, requested STM S0 has division 40.
+(b) `send clear` / `send pair gainstm 0 1 255:0 65535 100 2 2 | swapgain 0 255:0` → `R=ok N=2` / `send silsteps 10 200 1`
+    → `R=ok`: strict 10/200, requested STM S1 has division 100.
+`Lemmas/SilSendWitness.lean`: `sendsFromNew f8dRefusedSends`, `sendsFromNew f8dAcceptedSends` evaluate (`#eval`) to the
+same summaries through `sendLoopR`; the kernel needs minutes for them, so they are not stated as theorems.
+-/
+
 /-! ## non-vacuity -/
 
 /-- the legal history of `Lemmas/SilGuardWitness.lean` runs without panic from `CPUEmulator::new` (summary
@@ -249,5 +391,26 @@ example : trailFromNew swapsTrace =
      [136, 1, 1, 65535, 40, 0, 65535, 65535, 10, 40, 0, 1],
      [7, 1, 1, 65535, 40, 1, 65535, 65535, 10, 40, 0, 1],
      [8, 0, 0, 65535, 40, 1, 65535, 65535, 10, 40, 0, 1]] := by decide +kernel
+
+/-- a history inside the proved vocabulary, frame by frame on an 8-transducer device (default strict silencer 10/40):
+GainSTM → S1 div 60 with Immediate transition, BEGIN (ack 1: belief 1, request 0 — the invariant is suspended) and
+END|UPDATE (ack 2: request 1 = belief); the tuple (Silencer(10, 55, strict), SwapSegment::GainSTM(S1)) in one frame,
+accepted (ack 3) -/
+example : trailFromNewN 8 legalFramesA =
+    [[1, 0, 1, 65535, 60, 0, 65535, 65535, 10, 40, 0, 1],
+     [2, 1, 1, 65535, 60, 0, 65535, 65535, 10, 40, 0, 1],
+     [3, 1, 1, 65535, 60, 0, 65535, 65535, 10, 55, 4, 1]] := by decide +kernel
+
+/-- strict Silencer(10, 50) accepted; a multi-frame GainSTM → S1 div 45 with transition is refused at its BEGIN frame
+with 142 and nothing in the summary moves (the send stops: `rejected_send_changes_nothing_send_level`) -/
+example : trailFromNewN 8 legalFramesB =
+    [[1, 0, 0, 65535, 65535, 0, 65535, 65535, 10, 50, 4, 1],
+     [142, 0, 0, 65535, 65535, 0, 65535, 65535, 10, 50, 4, 1]] := by decide +kernel
+
+/-- the members of tuples covered by `Sent.small` are single-frame kinds; GainSTM / FociSTM are not (they enter through
+`Sent.data` / `Sent1.accepted`) -/
+example : SmallOrNull (.silencerSteps 10 55 true) ∧ SmallOrNull (.swapGainStm 1 0xFF 0) ∧ SmallOrNull .clear ∧
+    SmallOrNull .null ∧ IsSmall (gstmDg 1 imm 100 2) = false ∧ IsSmall (fociDg 1 imm 60 100) = false :=
+  ⟨Or.inl rfl, Or.inl rfl, Or.inl rfl, Or.inr rfl, rfl, rfl⟩
 
 end Autd3.C08
